@@ -31,6 +31,7 @@ class Scheduler(object):
         self.current = None
         self.phase = ['-'] * nthreads
         self.ident2tid = {}
+        self.clock = None
         self.lock_waits = 0
         self.importing = [0] * nthreads   # depth of module-level code being executed (import lock held: never pre-empt)
         self.switches = 0
@@ -176,6 +177,8 @@ class Scheduler(object):
     def step(self, tid):
         self.steps += 1
         st = self.steps
+        if self.clock is not None:
+            self.clock.advance(2e-6)      # simulated time passes with every step, also for parked threads
         if st >= self.step_cap:
             self.capped = True
             return
